@@ -311,9 +311,10 @@ void xer_strip_trailing_ws(Bytes &b) {
 void xer_variant(const Bytes &x, Rng &rng, Bytes &out, XerVariantStats &vs, bool favour_prolog) {
     // type-agnostic rewriting of the markup around the values; what the decoder rejects is dropped by the callers' precondition
     out.clear();
-    unsigned p_ws = (unsigned)rng.below(10), p_cm = (unsigned)rng.below(5), p_et = (unsigned)rng.below(8), p_cr = (unsigned)rng.below(6);
+    unsigned p_ws = (unsigned)rng.below(10), p_cm = (unsigned)rng.below(5), p_et = (unsigned)rng.below(8), p_cr = (unsigned)rng.below(6), p_at = (unsigned)rng.below(5);
     size_t n = x.size();
     bool in_text = false;        // between a '>' and the next '<'
+    bool in_open_tag = false;    // inside <name ...> (not a closing tag, comment or processing instruction)
     // a prolog in front of the outermost tag: whitespace, a comment, a comment that holds commented-out markup of this very document
     if(rng.below(16) < p_cm + 1 || (favour_prolog && rng.chance(1, 2))) {
         switch(rng.below(favour_prolog ? 6 : 4)) {
@@ -328,7 +329,15 @@ void xer_variant(const Bytes &x, Rng &rng, Bytes &out, XerVariantStats &vs, bool
     }
     for(size_t i = 0; i < n; i++) {
         uint8_t c = x[i];
-        if(c == '<') in_text = false; else if(c == '>') in_text = true;
+        if(c == '<') { in_text = false; in_open_tag = i + 1 < n && x[i + 1] != '/' && x[i + 1] != '!' && x[i + 1] != '?'; } else if(c == '>') in_text = true;
+        if(c == '>' && in_open_tag) {
+            // attributes on an opening tag (the XER decoders skip them): quoted values may hold blanks, a '>', an apostrophe
+            in_open_tag = false;
+            if(i > 0 && x[i - 1] != '/' && rng.below(16) < p_at) {
+                static const char *at[] = {" v=\"1\"", " a=\"x y\" b=\"\"", " note=\"1>0\"", " q=\"it's\"", "  xmlns:k=\"urn:x/y\" k:z=\"<!--\""};
+                const char *w = at[rng.below(5)]; out.insert(out.end(), w, w + strlen(w)); vs.attributes++;
+            }
+        }
         if(c == '<' && i + 1 < n && x[i + 1] != '/' && x[i + 1] != '!') {
             // <tag></tag>  ->  <tag/>
             size_t j = i + 1; while(j < n && x[j] != '>' && x[j] != '/') j++;
